@@ -135,6 +135,20 @@ def specials():
     }.items():
         sp(f"symjump-{nm}", code, "symbolic-jump", options={"symbolic_jump": True})
     sp("symjump-off", cd0 + ["JUMP", ("LABEL", "a"), ("PUSH", 7)] + R32, "symbolic-jump-off")
+    # vm.assert* inside a transaction: the failing inputs end in a failure, the others continue (cheatcode spec in the reference)
+    from lib import e2e as _e2e
+
+    def cheat_sp(name, items, tag):
+        sp(name, items, tag)
+        out[-1].cheats = True
+
+    cheat_sp("vm-assertEq-then-return", _e2e.call_cheat("assertEq(uint256,uint256)", [cd0, [("PUSH", 5)]]) + ["POP"] + cd0 + [("PUSH", 1), "ADD"] + R32,
+             "vm.assert-continuation")
+    cheat_sp("vm-assertLt-then-branch", _e2e.call_cheat("assertLt(uint256,uint256)", [cd0, cd1]) + ["POP"] + cd1 + cd0 + [
+        "LT", ("PUSHL", "a"), "JUMPI", ("PUSH", 7)] + R32 + [("LABEL", "a"), ("PUSH", 9)] + R32, "vm.assert-continuation")
+    cheat_sp("vm-assertTrue-signed", _e2e.call_cheat("assertGe(int256,int256)", [cd0, [("PUSH", 0)]]) + ["POP"] + cd0 + [("PUSH", 255), "SHR"] + R32,
+             "vm.assert-continuation")
+    cheat_sp("vm-assume-then-return", _e2e.call_cheat("assume(bool)", [cd1 + cd0 + ["LT"]]) + ["POP"] + cd1 + cd0 + ["SUB"] + R32, "vm.assume")
     sp("stack-underflow", ["ADD"], "stack-underflow")
     sp("invalid-op", [0x0C], "undefined-opcode")
     sp("selfbalance-caller", ["CALLER", "BALANCE", "SELFBALANCE", "ADD"] + R32, "balance-read")
